@@ -378,10 +378,11 @@ impl Column {
                 decoded.push(first);
                 decoded.push(second);
                 let mut last = second;
-                let mut last_delta = second - first;
+                // first differences are kept modulo 2^64 (see double_delta_encode)
+                let mut last_delta = second.wrapping_sub(first);
                 for i in data {
-                    last_delta += i as i64;
-                    last += last_delta;
+                    last_delta = last_delta.wrapping_add(i as i64);
+                    last = last.wrapping_add(last_delta);
                     decoded.push(last);
                 }
                 Column::Int(decoded)
@@ -394,10 +395,11 @@ impl Column {
                 decoded.push(first);
                 decoded.push(second);
                 let mut last = second;
-                let mut last_delta = second - first;
+                // first differences are kept modulo 2^64 (see double_delta_encode)
+                let mut last_delta = second.wrapping_sub(first);
                 for i in data {
-                    last_delta += i as i64;
-                    last += last_delta;
+                    last_delta = last_delta.wrapping_add(i as i64);
+                    last = last.wrapping_add(last_delta);
                     decoded.push(last);
                 }
                 Column::Int(decoded)
@@ -410,10 +412,11 @@ impl Column {
                 decoded.push(first);
                 decoded.push(second);
                 let mut last = second;
-                let mut last_delta = second - first;
+                // first differences are kept modulo 2^64 (see double_delta_encode)
+                let mut last_delta = second.wrapping_sub(first);
                 for i in data {
-                    last_delta += i as i64;
-                    last += last_delta;
+                    last_delta = last_delta.wrapping_add(i as i64);
+                    last = last.wrapping_add(last_delta);
                     decoded.push(last);
                 }
                 Column::Int(decoded)
@@ -454,11 +457,11 @@ fn determine_delta_compressability(ints: &[i64]) -> DeltaStats {
     }
 
     let mut previous = ints[1];
-    let mut previous_delta = (ints[1] - ints[0]) as i128;
+    let mut previous_delta = ints[1] as i128 - ints[0] as i128;
     min_delta = previous_delta;
     max_delta = previous_delta;
     for curr in &ints[2..] {
-        let delta = (*curr - previous) as i128;
+        let delta = *curr as i128 - previous as i128;
         min_delta = min_delta.min(delta);
         max_delta = max_delta.max(delta);
         let delta_delta = delta - previous_delta;
@@ -497,11 +500,13 @@ where
     <T as TryFrom<i64>>::Error: std::fmt::Debug,
 {
     let mut encoded = Vec::with_capacity(ints.len());
+    // First differences can exceed i64 even when the second differences are small (e.g. [MIN, 0, MAX]),
+    // so they are computed modulo 2^64; the second differences fit T and are therefore exact.
     let mut previous = ints[1];
-    let mut previous_delta = ints[1] - ints[0];
+    let mut previous_delta = ints[1].wrapping_sub(ints[0]);
     for curr in &ints[2..] {
-        let delta = curr - previous;
-        let delta_delta = delta - previous_delta;
+        let delta = curr.wrapping_sub(previous);
+        let delta_delta = delta.wrapping_sub(previous_delta);
         encoded.push(T::try_from(delta_delta).unwrap());
         previous = *curr;
         previous_delta = delta;
